@@ -163,6 +163,10 @@ def corr_loop(ctx):
             if bad or sorted(log) != list(range(n)) or cnt != n:
                 ctx.fail(f"process(): K-points {bad} were not set exactly once / log {log} is not a permutation "
                          f"of range({n})", dict(case, answers=b["answers"]))
+            wrong = [k.i for k in K if k.i not in evaluated and k.res != ("res", k.i)]
+            if wrong:
+                ctx.fail(f"process(): K-points {wrong[:8]} were given the result of ANOTHER K-point's remote task",
+                         dict(case, answers=b["answers"]))
             if dump and any(k.ndump != 1 for k in K if k.i not in evaluated):
                 ctx.fail("process(dump_results=True): dump_result not called exactly once per new K-point", case)
             if (not dump) and (not store) and any(k.nclear != 1 for k in K if k.i not in evaluated):
